@@ -757,6 +757,36 @@ fn run_isolated(state: u64, c: &Case) {
     }
 }
 
+/// A two-sided sheet: every face of an open surface also present with the opposite winding (a thin wall modelled with
+/// both of its sides, a surface appended to its own reversed copy).  The two sides are distinct faces; a split keeps
+/// both, so the areas of the halves still add up to the area of the whole.  Only the split clauses are run.
+fn split_two_sided(rng: &mut Rng) {
+    let nx = rng.int(3, 8) as usize;
+    let ny = rng.int(3, 8) as usize;
+    let amp = rng.range(0.0, 1.0);
+    let base = gen::moved(&gen::height_field(rng, nx, ny, amp), &gen::iso3(rng, 20.0));
+    let mut faces = base.faces().to_vec();
+    let back: Vec<[u32; 3]> = faces.iter().map(|f| [f[0], f[2], f[1]]).collect();
+    faces.extend(back);
+    let mesh = Mesh::new(base.vertices().to_vec(), faces, false);
+    let vs = mesh.vertices();
+    let (mut lo, mut hi) = (vs[0].coords, vs[0].coords);
+    for p in vs {
+        lo = lo.inf(&p.coords);
+        hi = hi.sup(&p.coords);
+    }
+    let scale = (hi - lo).norm();
+    let n = UnitVec3::new_normalize(rvec(rng));
+    let through = Point3::from(lo + (hi - lo).component_mul(&Vector3::new(rng.range(0.2, 0.8), rng.range(0.2, 0.8), rng.range(0.2, 0.8))));
+    let plane = Plane3::new(n, n.dot(&through.coords));
+    let margin = 1e-4 * scale.max(1.0);
+    if !vs.iter().all(|p| plane.signed_distance_to_point(p).abs() > margin) {
+        return;
+    }
+    let c = Case { mesh, kind: Kind::Field, plane, clean: true, open_section: true, watertight: false, scale };
+    run_split(&c);
+}
+
 pub fn run(rng: &mut Rng, n: usize, child: bool, seed: u64, thorough: bool) {
     if child {
         // `seed` is the PRNG state at which the parent generated the case
@@ -795,6 +825,9 @@ pub fn run(rng: &mut Rng, n: usize, child: bool, seed: u64, thorough: bool) {
                     if let parry3d_f64::query::IntersectResult::Intersect(pl) = c.mesh.tri_mesh().intersection_with_local_plane(&c.plane.normal, c.plane.d, 1.0e-6) {
                         chain_case(rng, pl.indices().to_vec(), "parry polyline");
                     }
+                }
+                if rng.chance(0.15) {
+                    split_two_sided(rng);
                 }
                 if !c.open_section || c.clean {
                     run_split(&c);
